@@ -21,6 +21,7 @@ var ErrAPI = errors.New("scripted api failure")
 
 // APICall is one call the monitor made.
 type APICall struct {
+	Seq        int64
 	Kind       string // connect, restart, close
 	Start      time.Time
 	End        time.Time
@@ -100,7 +101,7 @@ func (s stubState) ChannelID() datatransfer.ChannelID { return s.chid }
 func (s stubState) Status() datatransfer.Status       { return s.status }
 
 func (m *MonAPI) call(ctx context.Context, kind string, closeErr error) error {
-	c := &APICall{Kind: kind, Start: time.Now(), done: make(chan error, 1)}
+	c := &APICall{Seq: doubles.NextSeq(), Kind: kind, Start: time.Now(), done: make(chan error, 1)}
 	if closeErr != nil {
 		c.CloseErr = closeErr.Error()
 	}
